@@ -1,5 +1,5 @@
 (* Props/C08.v — property C08: symmetry under class swap, direction reversal and rescaling. Statements only. *)
-From SA Require Import Model.Symmetry Model.Threshold Proofs.SymmetryFacts Proofs.InvIncrFacts Proofs.EquivarianceFacts Proofs.NegationFacts Proofs.AucInvarianceFacts Proofs.EerEquivarianceFacts Proofs.EerFacts.
+From SA Require Import Model.Symmetry Model.Threshold Proofs.SymmetryFacts Proofs.InvIncrFacts Proofs.EquivarianceFacts Proofs.NegationFacts Proofs.AucInvarianceFacts Proofs.EerEquivarianceFacts Proofs.EerFacts Proofs.CarrierB64.
 From SA Require Import Model.Eer.
 From SA Require Import Model.Auc Model.Harness.
 Open Scope Q_scope.
@@ -102,6 +102,22 @@ Theorem C08_full_auc_negate :
   auc succ pred (neg_scores s) 0 1 AFpr ATpr == auc succ pred s 0 1 AFpr ATpr.
 Proof. exact full_auc_negate. Qed.
 Print Assumptions C08_full_auc_negate.
+
+(* both hold of the binary64 model outright (its nextafter is a carrier, Proofs/CarrierB64.v) *)
+Theorem C08_full_auc_invariant_binary64 :
+  forall (a b : Q) (s : scores), 0 < a ->
+  pos s <> [] -> neg s <> [] -> (0 <= easy_pos s)%Z -> (0 <= easy_neg s)%Z ->
+  Forall isD64 (pos s ++ neg s) ->
+  (Forall isD64 (map (fun x => a * x + b) (pos s ++ neg s)) ->
+     auc succ64 pred64 (affine_scores a b s) 0 1 AFpr ATpr == auc succ64 pred64 s 0 1 AFpr ATpr) /\
+  auc succ64 pred64 (neg_scores s) 0 1 AFpr ATpr == auc succ64 pred64 s 0 1 AFpr ATpr.
+Proof.
+  intros a b s Ha Hp Hn Ep En D. split.
+  - intro D'. exact (C08_full_auc_affine isD64 succ64 pred64 b64_carrier a b s Ha Hp Hn Ep En D D').
+  - apply (C08_full_auc_negate isD64 succ64 pred64 b64_carrier s Hp Hn Ep En D).
+    rewrite Forall_forall in *. intros y Hy. apply in_map_iff in Hy. destruct Hy as (x & <- & Hx). apply isD64_opp, D, Hx.
+Qed.
+Print Assumptions C08_full_auc_invariant_binary64.
 
 (* Increasing affine maps that commute with np.nextafter on the scores of the object ([commutes_on]:
    succ (a*x+b) == a*succ x + b and the same for pred, for every score x; decidable on a given object by
